@@ -543,7 +543,8 @@ def right(text, num_chars=1):
 
     if num_chars < 0:
         return VALUE_ERROR
-    elif num_chars == 0:
+    elif num_chars < 1:
+        # a fraction of a character is no character
         return ''
     else:
         return str(text)[-int(num_chars):]
